@@ -155,15 +155,16 @@ structure Event where
 
 /-! ### Reading -/
 
-/-- Fuel for walks that the code performs without a bound (reads, notification cascades): enough
-for every acyclic pool. -/
+/-- Fuel for walks whose only bound in the code is the interpreter's recursion limit (reads,
+notification cascades): enough for every acyclic pool. -/
 def Pool.fuel (p : Pool) : Nat := p.size + 1
 
 /-- `has_traits_getattro` (ctraits.c:836-884) → `getattr_trait` / `getattr_python` /
-`getattr_delegate` (ctraits.c:2018-2065).  The code recurses through `tp_getattro` without any
-bound; fuel 0 is the C stack overflow on a cyclic delegate graph. -/
+`getattr_delegate` (ctraits.c:2018-2072).  The code recurses through `tp_getattro`, guarded by
+`Py_EnterRecursiveCall` (fix ec4908f of finding F21): on a cyclic delegate graph it raises
+RecursionError, a RuntimeError — fuel 0. -/
 def read (p : Pool) : Nat → ObjId → Name → Except Exc Val
-  | 0, _, _ => .error .other
+  | 0, _, _ => .error .runtimeError
   | f + 1, o, n =>
     match (p.obj o).dict n with
     | some v => .ok v                                   -- value in the object's dictionary
@@ -207,7 +208,8 @@ def baseOk (p : Pool) (pfx0 : Option Name) : Nat → ObjId → TraitDef → Name
       let da' := attrName d pfx0 da
       baseOk p pfx0 f x ((p.obj x).cls.trait da') da'
 
-/-- Can a listener for attribute `t` be registered on object `x`? -/
+/-- Does `x.base_trait(t)` resolve?  (Since fix bead785 this only selects which trait supplies the
+listener type; see `hook`.) -/
 def hookOk (p : Pool) (x : ObjId) (t : Name) : Bool :=
   baseOk p (p.obj x).cls.pfx 99 x ((p.obj x).cls.trait t) t
 
@@ -272,16 +274,20 @@ def delPython (p : Pool) (x : ObjId) (t : Name) : StepOut :=
   | none => fail p .attributeError
   | some _ => { pool := p.setDict x t none, res := .ok none }
 
-/-- `ListenerItem.register(new)` for the `d:target` listener of `(o, n)` (traits_listener.py:331-433):
-the object the forwarder ends up hooked on, and whether `base_trait` raised. -/
-def hook (p : Pool) (o : ObjId) (n : Name) (d : DelegInfo) : Option ObjId × Bool :=
+/-- `ListenerItem.register(new)` for the `d:target` listener of `(o, n)` (traits_listener.py:331-438):
+the object the forwarder ends up hooked on, and whether registration raised.  `base_trait` (`hookOk`) is
+tried first; when it raises DelegationError — the chain below the delegate is not complete, or longer
+than the limit — the deferring trait itself supplies the listener type (traits_listener.py:391-394, fix
+bead785 of finding F18), and both are simple traits here: registration on a delegate that is set always
+succeeds.  (On the unrepaired tree the answer was `(none, true)` when `hookOk` is false.) -/
+def hook (p : Pool) (o : ObjId) (_n : Name) (_d : DelegInfo) : Option ObjId × Bool :=
   match (p.obj o).deleg with
   | none => (none, false)
-  | some x => if hookOk p x (listenedName (p.obj o).cls.pfx n d) then (some x, false) else (none, true)
+  | some x => (some x, false)
 
 /-- `_remove_trait_delegate_listener(n, False)` (has_traits.py:3403-3408) after the local value of a
 prototyped attribute was deleted: re-install the forwarder unless it is there.  When `base_trait`
-raises inside `on_trait_change` the exception propagates out of `del o.n`. -/
+raised inside `on_trait_change` the exception would propagate out of `del o.n` (it no longer can, see `hook`). -/
 def relink (p : Pool) (o : ObjId) (n : Name) (d : DelegInfo) (evs : List Event) : StepOut :=
   match (p.obj o).fwd n with
   | some _ => { pool := p, res := .ok none, events := evs }
